@@ -384,7 +384,27 @@ func ruleR22_5(c *Check) {
 		if !ok || !isEqTest.Match(w, put, unparen(is.Cond)) || unparen(is.Cond).(*ast.BinaryExpr).Op != token.EQL {
 			return true
 		}
-		hasSet := containsSel(w, put, is.Body, selCall(setValue))
+		// setValue itself, or a helper of the package that calls it unconditionally
+		replaces := selPred("replaces the value", func(w *World, fn *Fn, n ast.Node) bool {
+			call, ok := n.(*ast.CallExpr)
+			if !ok {
+				return false
+			}
+			if w.Callee(call) == types.Object(setValue) {
+				return true
+			}
+			g := w.calleeFn(fn, call)
+			if g == nil || g.Decl == nil || g.Body == nil {
+				return false
+			}
+			for _, s := range g.Sites(selCall(setValue)) {
+				if len(w.guardsLocal(g, s)) == 0 {
+					return true
+				}
+			}
+			return false
+		})
+		hasSet := containsSel(w, put, is.Body, replaces)
 		_, rets := is.Body.List[len(is.Body.List)-1].(*ast.ReturnStmt)
 		r.Check(hasSet && rets, put, "equal key: value replaced and Put returns", is.Cond, "the equal-key branch does not call setValue and return")
 		// … on every path: no return inside the branch before the value was replaced (an "already
@@ -404,7 +424,7 @@ func ruleR22_5(c *Check) {
 				}
 				return k
 			}
-			for _, s := range put.Sites(selCall(setValue)) {
+			for _, s := range put.Sites(replaces) {
 				if s.Pos() >= is.Body.Pos() && s.End() <= rs.Pos() && explicit(s) <= explicit(is.Body.List[0]) {
 					pre = true
 				}
